@@ -93,6 +93,11 @@ def run_case(ctx, bodies, upper, terminate, how, pad, cuts, bufsize, readpat, ti
             # legitimately deliver nothing while a chunk is still incomplete or a receive timed out)
             while idle < 3 or sock._vpos < len(encoded) or sock._si < len(sock._sched):
                 k = 1 if readpat == 0 else (65536 if readpat == 9 else rr.choice((1, 1, 2, 3, 7, 50)))
+                if readpat == 2 and rr.random() < 0.2:
+                    # the client talks while it listens (an NTRIP client sends its position now and then): what was sent
+                    # has nothing to do with what is being received
+                    w.write(b"$GPGGA,000000.00,0000.000,N,00000.000,E,1,08,1.0,0.0,M,0.0,M,,*00\r\n")
+                    ctx.hit("writes_between_reads")
                 r = w.read(k)
                 if not r and k > 1:
                     r = w.read(1)
